@@ -78,10 +78,26 @@ def run_sched(spec):
     evals = 0
     for cfg in spec["cfgs"]:
         gen_kind = cfg["gen"]
-        code = (SequenceGenerator.next_sequence if gen_kind == "sequence" else SessionGenerator.next_id).__code__
-        s = Sched([code])
+        # scheduling points: every line of every function the generator class defines (the drawing method, and
+        # whatever helper methods, properties or lazily evaluated attributes it calls)
+        gcls = SequenceGenerator if gen_kind == "sequence" else SessionGenerator
+        codes = class_codes(gcls)
+        s = Sched(codes)
         s.install()
         state = {}
+        import diameter.node._helpers as helpers_mod
+        real_threading = helpers_mod.threading
+
+        class ThreadingProxy:
+            """Locks the generator creates - at construction or at any later time - are scheduler-aware."""
+
+            def __getattr__(self, n):
+                return getattr(real_threading, n)
+
+            def Lock(self):
+                return SchedLock(s, "lock")
+
+        helpers_mod.threading = ThreadingProxy()
 
         def make(prefix):
             nonlocal evals
@@ -130,7 +146,10 @@ def run_sched(spec):
                 n += 1
                 if trace is None:
                     if verdict and verdict[0] == "stuck":
-                        wit.append({"key": f"scheduler.stuck.{gen_kind}", "detail": {"cfg": cfg, "why": verdict[1]}})
+                        # the scheduler lost control (a thread blocks on something it cannot see): nothing is
+                        # decided by such an execution
+                        cov["stuck"] = cov.get("stuck", 0) + 1
+                        cov["stuck_why"] = verdict[1][:200]
                     continue
                 sched_ids = tuple(c for c, _, _ in trace)
                 hashes.add(h64(repr(cfg), sched_ids))
@@ -145,6 +164,7 @@ def run_sched(spec):
                     samples.append({"cfg": cfg, "schedule": list(sched_ids)})
         finally:
             s.uninstall()
+            helpers_mod.threading = real_threading
         cov["executions"] += n
         cov["configs"] += 1
         if getattr(explore, "exhausted", False):
@@ -158,7 +178,26 @@ def run_sched(spec):
         if k not in seen:
             seen.add(k)
             short.append(w)
-    return {"evaluations": evals, "hashes": sorted(hashes), "witnesses": short, "samples": samples, "coverage": cov}
+    res = {"evaluations": evals, "hashes": sorted(hashes), "witnesses": short, "samples": samples, "coverage": cov}
+    if cov.get("stuck", 0) > cov["executions"] // 50 + 2:
+        res["inconclusive"] = f"{spec['name']}: the scheduler lost control in {cov['stuck']} executions: {cov.get('stuck_why')}"
+    return res
+
+
+def class_codes(cls):
+    """Code objects of everything the class (and its bases in the same module) defines."""
+    import functools
+    out = []
+    for k in cls.__mro__:
+        if k.__module__ != cls.__module__:
+            continue
+        for v in vars(k).values():
+            for f in (v, getattr(v, "fget", None), getattr(v, "fset", None), getattr(v, "func", None),
+                      getattr(v, "__func__", None), getattr(v, "__wrapped__", None)):
+                c = getattr(f, "__code__", None)
+                if c is not None and c not in out and c.co_name != "__init__":
+                    out.append(c)
+    return out
 
 
 SESSION_RE = re.compile(r"^(?P<ident>[^;]+);(?P<start>[0-9a-f]{8});(?P<hi>[0-9a-f]{8});(?P<lo>[0-9a-f]{8})(?P<opt>(;[^;]*)*)$")
